@@ -158,7 +158,7 @@ pub fn run(cfg: &Cfg) -> i32 {
         let starts = ["draw-rights", "draw-rights-b", "castle-all", "castle-all-b", "draw-bare", "draw-knights", "kiwipete", "start", "castle-partial-Kq", "mid-endgame", "ep-two-capturers", "san-rooks-black"];
         let pol = [Policy::ReversibleNoThird, Policy::SeekRepetition, Policy::Reversible, Policy::ReversibleNoThird];
         let strat = gen::raw_hist_strategy(100, 260);
-        engine::pbt(ctx, seedf(1), cfg.per_shard(8_000, 160_000), &strat, |ctx, raw: &RawHist| {
+        engine::pbt(ctx, seedf(1), cfg.per_shard(20_000, 300_000), &strat, |ctx, raw: &RawHist| {
             // three starts in four come from the positions chosen for long reversible play
             let start = if raw.start_sel % 4 != 0 {
                 gen::curated_by_tag(starts[(raw.start_sel as usize / 4) % starts.len()]).clone()
